@@ -26,7 +26,7 @@ ASSUMPTIONS = [
     "names: ASCII project names; version text without '-' (true for PEP 440 normal form; a local-version label with '-'/'_' is the recorded finding D11 and is not generated)",
     "csv quoting as in CPython 3.12 with lineterminator '\\n' (',', '\"' and '\\n' force quoting)",
     "reference for PEP 427/503/440 name agreement: packaging 26.3 (parse_wheel_filename, parse_tag) in a separate process",
-    "not generated (reported separately as findings): two file scripts with the same base name, a package `to` target containing '..'",
+    "two file scripts with the same base name and a package `to` target containing '..' are not generated; one fixed witness of each runs on every check under the class keys file-scripts-same-basename / package-to-parent-directory",
 ]
 
 NONEXEC_MODES = [0o644, 0o600, 0o664, 0o666, 0o640, 0o604, 0o654, 0o645, 0o444]
@@ -103,6 +103,66 @@ def oracle_archive(d: bc.WheelDesc) -> list[str]:
         if (m["mode"] & 0o777) not in (0o644, 0o755):
             bad.append(f"member {n!r} has mode {oct(m['mode'] & 0o7777)}")
     return bad
+
+
+def oracle_layout(d: bc.WheelDesc, allowed_top: set[str] | None) -> list[str]:
+    """PEP 427 layout: the archive root holds only the project's own top-level packages/modules/included paths,
+    `{distribution}-{version}.dist-info` and `{distribution}-{version}.data` — with distribution and version spelled
+    exactly as in the file name (the normalised forms)."""
+    bad: list[str] = []
+    parts = d.file_name.split("-")
+    if len(parts) < 5:
+        return []       # reported by oracle_names
+    prefix = parts[0] + "-" + parts[1]
+    tops = sorted({m["name"].split("/")[0] for m in d.members})
+    for t in tops:
+        if t.endswith(".dist-info"):
+            if t != prefix + ".dist-info":
+                bad.append(f"dist-info directory {t!r} is not {prefix + '.dist-info'!r} (file name {d.file_name!r})")
+        elif t.endswith(".data"):
+            if t != prefix + ".data":
+                bad.append(f"data directory {t!r} is not {prefix + '.data'!r} (file name {d.file_name!r}): installers will not recognise it")
+        elif allowed_top is not None and t not in allowed_top and t not in ("..", ""):
+            bad.append(f"top-level entry {t!r} is neither a selected package/module/include path {sorted(allowed_top)} nor the dist-info/data directory")
+    for m in d.members:
+        comps = m["name"].split("/")
+        if comps[0].endswith(".data") and (len(comps) < 3 or comps[1] not in ("scripts", "purelib", "platlib", "headers", "data")):
+            bad.append(f"member {m['name']!r} is not under a known .data sub-directory")
+    return bad
+
+
+def allowed_top_level(p: gen_project.Project, kind: str) -> set[str] | None:
+    """top-level archive names the project's own configuration asks for (None when the description carries no meta)"""
+    meta = p.meta
+    if not meta or "module" not in meta:
+        return None
+    mod = meta["module"]
+    if kind == "editable":
+        return {mod + ".pth"}
+    out: set[str] = set()
+    pkgs = meta.get("packages") or []
+    if not pkgs:
+        out |= {mod, mod + ".py"}
+    for e in pkgs:
+        first = (e["to"] + "/" + e["include"]) if e.get("to") else e["include"]
+        out.add(first.split("/")[0])
+    for inc in meta.get("include") or []:
+        path = inc if isinstance(inc, str) else inc["path"]
+        out.add(path.split("/")[0])
+    return out
+
+
+def finding_class(p: gen_project.Project) -> str | None:
+    """configurations behind recorded findings (keyed by class, not by project)"""
+    fs = list((p.meta.get("file_scripts") or {}).values())
+    bases = [x.rsplit("/", 1)[-1] for x in fs]
+    if len(set(bases)) < len(bases):
+        return "file-scripts-same-basename"
+    for e in p.meta.get("packages") or []:
+        to = e.get("to") or ""
+        if to.startswith("/") or ".." in to.split("/"):
+            return "package-to-parent-directory"
+    return None
 
 
 def header(hs: list[tuple[str, str]], key: str) -> list[str]:
@@ -245,6 +305,8 @@ def check_project(ctx: core.Ctx, p: gen_project.Project, sde: str | None, stream
                 ctx.count("unbuildable:" + type(e).__name__)
                 ctx.notes.append(f"generator produced an unbuildable project: {type(e).__name__}: {str(e)[:200]}")
                 return
+            if facts["meta_version"] != p.version:
+                ctx.count("version-spelling-noncanonical" + ("+file-scripts" if "file-scripts" in p.features else ""))
             md = base / "prepared"
             md.mkdir()
             prep_name, prep_files = bc.prepare_metadata(root, md, p.config_settings)
@@ -272,8 +334,14 @@ def check_project(ctx: core.Ctx, p: gen_project.Project, sde: str | None, stream
                         ctx.violate("returned-name:" + key, f"{kind}/{api} returned {b.returned!r} but the output directory holds {b.listing}", wit)
                         continue
                     d = bc.read_wheel(b.path)
-                    for msg in oracle_archive(d):
-                        ctx.violate("archive:" + msg[:60] + ":" + key, f"{kind}/{api} wheel of {p.name} {p.version}: {msg}", wit)
+                    fclass = finding_class(p)
+                    for msg in oracle_archive(d) + oracle_layout(d, allowed_top_level(p, kind)):
+                        vkey = "archive:" + msg[:60] + ":" + key
+                        if fclass == "file-scripts-same-basename" and ("more than once" in msg or ".data/scripts/" in msg):
+                            vkey = fclass
+                        elif fclass == "package-to-parent-directory" and ("is not a relative" in msg):
+                            vkey = fclass
+                        ctx.violate(vkey, f"{kind}/{api} wheel of {p.name} {p.version}: {msg}", wit)
                     if prep_name not in d.dist_info_dirs:
                         ctx.violate("prepared-name:" + key, f"prepare_metadata_for_build_wheel returned {prep_name!r}, wheel contains {d.dist_info_dirs}", wit)
                     elif prep_files != d.dist_info_bytes:
@@ -338,6 +406,27 @@ CORPUS_WANTS = [{"layout:package-flat", "style:poetry"}, {"layout:package-src", 
                 {"layout:module-src"}, {"layout:stubs"}, {"layout:explicit", "style:poetry"}, {"layout:explicit", "style:project"}]
 
 
+def _tiny(name: str, extra_tool: str, files: dict[str, tuple[bytes, int]], meta: dict[str, Any]) -> gen_project.Project:
+    py = (f'[tool.poetry]\nname = "{name}"\nversion = "1.0"\ndescription = ""\nauthors = []\n{extra_tool}\n'
+          '[tool.poetry.dependencies]\npython = ">=3.8"\n\n' + gen_project.BUILD_SYSTEM)
+    fl = [gen_project.FileSpec(k, v[0], v[1]) for k, v in files.items()]
+    m = {"module": name.replace("-", "_"), "packages": [], "include": [], "file_scripts": {}}
+    m.update(meta)
+    return gen_project.Project(name, "1.0", "poetry", py, fl, None, ["corpus-finding"], m)
+
+
+def findings_corpus() -> list[gen_project.Project]:
+    """one fixed witness per recorded finding class (not produced by the generator)"""
+    dup = _tiny("dup-scripts",
+                '\n[tool.poetry.scripts]\na = { reference = "bin/a.sh", type = "file" }\nb = { reference = "tools/a.sh", type = "file" }\n',
+                {"dup_scripts/__init__.py": (b"x = 1\n", 0o644), "bin/a.sh": (b"#!/bin/sh\n", 0o755), "tools/a.sh": (b"#!/bin/sh\necho 2\n", 0o644)},
+                {"file_scripts": {"a": "bin/a.sh", "b": "tools/a.sh"}})
+    up = _tiny("to-parent", 'packages = [{ include = "my_pkg", to = "../up" }]\n',
+               {"my_pkg/__init__.py": (b"x = 1\n", 0o644)},
+               {"packages": [{"include": "my_pkg", "to": "../up"}]})
+    return [dup, up]
+
+
 def perm_stream(ctx: core.Ctx) -> None:
     """normalize_file_permissions: generated Lean definition vs the Python function on all low 12-bit patterns + random high bits"""
     from poetry.core.masonry.utils.helpers import normalize_file_permissions
@@ -357,6 +446,9 @@ def perm_stream(ctx: core.Ctx) -> None:
 
 def correspondence(ctx: core.Ctx) -> None:
     perm_stream(ctx)
+    for fp in findings_corpus():
+        # a build that is refused is fine (the configuration is then outside "buildable"); a wheel that is written must satisfy C01
+        check_project(ctx, fp, None, "findings-corpus", kinds=("wheel",), apis=("hook",))
     rnd = ctx.rng
     n = ctx.budget(60, 1400)
     for i in range(n):
